@@ -396,3 +396,10 @@ def check_C19(tier):
     from drivers import revision
 
     return revision.run(Check("C19", tier), tier)
+
+
+def check_X01(tier):
+    """Extra (not one of the listed properties): conditional syntax splitting -- see drivers/synsplit.py, DESIGN 11.9."""
+    from drivers import synsplit
+
+    return synsplit.run(Check("X01", tier), tier)
